@@ -22,7 +22,7 @@ type Opts struct {
 func ri(t *rapid.T, lo, hi int, l string) int { return rapid.IntRange(lo, hi).Draw(t, l) }
 
 func tokTerm(g *G, i int) Term { return Term{Kind: KSym, Name: g.Toks[i%len(g.Toks)], IsTok: true} }
-func ruleTerm(n string) Term    { return Term{Kind: KSym, Name: n} }
+func ruleTerm(n string) Term   { return Term{Kind: KSym, Name: n} }
 
 func RuleName(i int) string { return fmt.Sprintf("r%c", 'a'+rune(i)) }
 
@@ -72,8 +72,8 @@ func GenG(t *rapid.T, o Opts) *G {
 		seen := map[string]bool{}
 		for j := 0; j < nP; j++ {
 			var p Prod
-			switch tmpl := ri(t, 0, 10, "tmpl"); {
-			case tmpl <= 3: // guarded
+			switch tmpl := ri(t, 0, 13, "tmpl"); {
+			case tmpl <= 3 || tmpl >= 11: // guarded
 				p.Terms = append(p.Terms, tokTerm(g, j+ri(t, 0, nT-1, "g")))
 				for k, n := 0, ri(t, 0, 3, "n"); k < n; k++ {
 					p.Terms = append(p.Terms, anyTerm(t, g, nR, o))
@@ -131,10 +131,58 @@ func GenG(t *rapid.T, o Opts) *G {
 		}
 	}
 	makeProductive(g)
+	if ri(t, 0, 3, "connect") != 0 {
+		connect(t, g)
+	}
 	if o.Styles {
 		g.Style = ri(t, 0, 15, "style")
 	}
 	return g
+}
+
+// connect makes every rule reachable from the start rule by adding guarded
+// alternatives ("Tk rule") to reachable rules.
+func connect(t *rapid.T, g *G) {
+	idx := map[string]int{}
+	for i, r := range g.Rules {
+		idx[r.Name] = i
+	}
+	for {
+		reach := map[int]bool{0: true}
+		stack := []int{0}
+		for len(stack) > 0 {
+			i := stack[len(stack)-1]
+			stack = stack[:len(stack)-1]
+			for _, p := range g.Rules[i].Prods {
+				for _, tm := range p.Terms {
+					for _, n := range []string{tm.Name, tm.Sep} {
+						if j, ok := idx[n]; ok && !reach[j] {
+							reach[j] = true
+							stack = append(stack, j)
+						}
+					}
+				}
+			}
+		}
+		missing := -1
+		var reachable []int
+		for i := range g.Rules {
+			if reach[i] {
+				reachable = append(reachable, i)
+			} else if missing < 0 {
+				missing = i
+			}
+		}
+		if missing < 0 {
+			return
+		}
+		host := reachable[ri(t, 0, len(reachable)-1, "chost")]
+		p := Prod{Terms: []Term{tokTerm(g, ri(t, 0, len(g.Toks)-1, "cguard")), ruleTerm(g.Rules[missing].Name)}}
+		if ri(t, 0, 7, "cbare") == 0 {
+			p.Terms = p.Terms[1:]
+		}
+		g.Rules[host].Prods = append(g.Rules[host].Prods, p)
+	}
 }
 
 // addShape mixes one member of the shape library into g: fresh helper rules
@@ -149,7 +197,11 @@ func addShape(t *rapid.T, g *G, o Opts) {
 	var entry Term
 	var rules []Rule
 	P := func(ts ...Term) Prod { return Prod{Terms: ts} }
-	switch ri(t, 0, 9, "shape") {
+	shape := ri(t, 0, 12, "shape")
+	if shape >= 10 && o.Prec {
+		shape = 8
+	}
+	switch shape {
 	case 0: // nullable helper reached twice in one FIRST computation
 		entry = ruleTerm(hn("s"))
 		rules = []Rule{
@@ -223,8 +275,9 @@ func addShape(t *rapid.T, g *G, o Opts) {
 			{Terms: []Term{tk(2)}},
 		}
 		if o.Prec {
+			all := ri(t, 0, 2, "qall") != 0
 			for i := 0; i < 2; i++ {
-				if ri(t, 0, 3, "q") != 0 {
+				if all || ri(t, 0, 3, "q") != 0 {
 					pr[i].Prec = ri(t, 1, 2, "lvl")
 					pr[i].Right = ri(t, 0, 3, "r") == 0
 				}
@@ -522,4 +575,170 @@ func Inputs(t *rapid.T, p *Plain, n int, maxLen int) [][]int {
 		}
 	}
 	return ws
+}
+
+// CloneG deep-copies a grammar.
+func CloneG(g *G) *G {
+	n := &G{Toks: append([]string(nil), g.Toks...), Style: g.Style}
+	for _, r := range g.Rules {
+		nr := Rule{Name: r.Name}
+		for _, p := range r.Prods {
+			np := Prod{Prec: p.Prec, Right: p.Right, Terms: append([]Term(nil), p.Terms...)}
+			nr.Prods = append(nr.Prods, np)
+		}
+		n.Rules = append(n.Rules, nr)
+	}
+	return n
+}
+
+// Reductions lists one-step simplifications of g (each still productive).
+func Reductions(g *G) []*G {
+	var out []*G
+	add := func(n *G) {
+		if productive(n) {
+			out = append(out, n)
+		}
+	}
+	// drop a rule (not the start) together with every production using it
+	for i := 1; i < len(g.Rules); i++ {
+		n := CloneG(g)
+		name := n.Rules[i].Name
+		n.Rules = append(n.Rules[:i], n.Rules[i+1:]...)
+		ok := true
+		for ri := range n.Rules {
+			var keep []Prod
+			for _, p := range n.Rules[ri].Prods {
+				uses := false
+				for _, t := range p.Terms {
+					if (!t.IsTok && t.Name == name) || (t.Sep == name && !t.SepTk) {
+						uses = true
+					}
+				}
+				if !uses {
+					keep = append(keep, p)
+				}
+			}
+			if len(keep) == 0 {
+				ok = false
+			}
+			n.Rules[ri].Prods = keep
+		}
+		if ok {
+			add(n)
+		}
+	}
+	// drop a production
+	for i := range g.Rules {
+		if len(g.Rules[i].Prods) < 2 {
+			continue
+		}
+		for j := range g.Rules[i].Prods {
+			n := CloneG(g)
+			n.Rules[i].Prods = append(n.Rules[i].Prods[:j], n.Rules[i].Prods[j+1:]...)
+			add(n)
+		}
+	}
+	// drop a term / desugar a term / drop a qualifier
+	for i := range g.Rules {
+		for j := range g.Rules[i].Prods {
+			p := g.Rules[i].Prods[j]
+			for k := range p.Terms {
+				n := CloneG(g)
+				tp := &n.Rules[i].Prods[j]
+				tp.Terms = append(tp.Terms[:k], tp.Terms[k+1:]...)
+				add(n)
+				if p.Terms[k].Kind != KSym && p.Terms[k].Kind != KErr {
+					n2 := CloneG(g)
+					t := &n2.Rules[i].Prods[j].Terms[k]
+					t.Kind, t.Sep, t.SepTk = KSym, "", false
+					add(n2)
+				}
+			}
+			if p.Prec > 0 {
+				n := CloneG(g)
+				n.Rules[i].Prods[j].Prec, n.Rules[i].Prods[j].Right = 0, false
+				add(n)
+			}
+		}
+	}
+	if g.Style != 0 {
+		n := CloneG(g)
+		n.Style = 0
+		add(n)
+	}
+	return out
+}
+
+func productive(g *G) bool {
+	prod := map[string]bool{}
+	for _, t := range g.Toks {
+		prod[t] = true
+	}
+	known := map[string]bool{}
+	for _, t := range g.Toks {
+		known[t] = true
+	}
+	for _, r := range g.Rules {
+		known[r.Name] = true
+	}
+	termOK := func(t Term) bool {
+		switch t.Kind {
+		case KOpt, KStar, KStarF, KListOpt, KErr:
+			return true
+		case KList:
+			return prod[t.Name] && prod[t.Sep]
+		default:
+			return prod[t.Name]
+		}
+	}
+	for _, r := range g.Rules {
+		if len(r.Prods) == 0 {
+			return false
+		}
+		for _, p := range r.Prods {
+			for _, t := range p.Terms {
+				if t.Kind != KErr && !known[t.Name] {
+					return false
+				}
+				if (t.Kind == KList || t.Kind == KListOpt) && !known[t.Sep] {
+					return false
+				}
+			}
+		}
+	}
+	for changed := true; changed; {
+		changed = false
+		for _, r := range g.Rules {
+			if prod[r.Name] {
+				continue
+			}
+			for _, p := range r.Prods {
+				ok := true
+				for _, t := range p.Terms {
+					ok = ok && termOK(t)
+				}
+				if ok {
+					prod[r.Name] = true
+					changed = true
+					break
+				}
+			}
+		}
+	}
+	for _, r := range g.Rules {
+		if !prod[r.Name] {
+			return false
+		}
+	}
+	return true
+}
+
+// InputReductions lists one-step simplifications of a token sequence.
+func InputReductions(w []int) [][]int {
+	var out [][]int
+	for i := range w {
+		n := append(append([]int(nil), w[:i]...), w[i+1:]...)
+		out = append(out, n)
+	}
+	return out
 }
